@@ -343,4 +343,80 @@ def T_tuplelist(src):
     return _apply(src, _TupleList)
 
 
-ALL = {"log-lines": T_log, "unused-local": T_nooplocal, "add-docstrings": T_docstring, "mirror-comparisons": T_mirror, "pass": T_pass, "const-swap": T_const, "if-not": T_ifnot, "return-temp": T_rettmp, "kwargs-order": T_kwargs, "rename-locals": T_rename, "augassign-expanded": T_augexpand, "elif-as-nested-if": T_elifnest, "in-tuple-vs-list": T_tuplelist}
+class _TernarySplit(ast.NodeTransformer):
+    """x = a if c else b   ->   if c: x = a  else: x = b      (single plain-name target)"""
+    n = 0
+
+    def visit_Assign(self, node):
+        if len(node.targets) == 1 and isinstance(node.targets[0], ast.Name) and isinstance(node.value, ast.IfExp):
+            self.n += 1
+            t = node.targets[0].id
+            mk = lambda v: ast.Assign(targets=[ast.Name(id=t, ctx=ast.Store())], value=v)
+            return ast.copy_location(ast.If(test=node.value.test, body=[mk(node.value.body)], orelse=[mk(node.value.orelse)]), node)
+        return node
+
+
+class _ElseAfterExit(ast.NodeTransformer):
+    """if c: ...; return/raise/continue/break      ->   if c: ... exit
+       rest                                             else: rest
+    (an `if` without else whose body always leaves the block swallows the statements that follow it into its else)"""
+    n = 0
+
+    def _fix(self, body):
+        out = []
+        for i, st in enumerate(body):
+            if isinstance(st, ast.If) and not st.orelse and st.body and isinstance(st.body[-1], (ast.Return, ast.Raise, ast.Continue, ast.Break)) and i + 1 < len(body) \
+                    and not any(isinstance(x, (ast.FunctionDef, ast.ClassDef)) for x in body[i + 1:]):
+                st.orelse = self._fix(body[i + 1:])
+                self.n += 1
+                out.append(st)
+                return out
+            out.append(st)
+        return out
+
+    def generic_visit(self, node):
+        super().generic_visit(node)
+        for f in ("body", "orelse", "finalbody"):
+            b = getattr(node, f, None)
+            if isinstance(b, list) and b and isinstance(b[0], ast.stmt) and isinstance(node, (ast.FunctionDef, ast.For, ast.While, ast.With, ast.If)):
+                if f == "body" or not (isinstance(node, ast.If) and f == "orelse" and len(b) == 1 and isinstance(b[0], ast.If)):
+                    setattr(node, f, self._fix(b))
+        return node
+
+
+class _ArgTemp(ast.NodeTransformer):
+    """x = f(g(y))  ->  _vp_arg = g(y); x = f(_vp_arg)    (statement-level assignment, the inner call is the only argument)"""
+    n = 0
+
+    def _block(self, body):
+        out = []
+        for st in body:
+            if isinstance(st, ast.Assign) and isinstance(st.value, ast.Call) and len(st.value.args) == 1 and not st.value.keywords and isinstance(st.value.args[0], ast.Call) \
+                    and isinstance(st.value.func, (ast.Name, ast.Attribute)) and not any(isinstance(x, (ast.Lambda, ast.GeneratorExp, ast.ListComp, ast.Yield, ast.Await)) for x in ast.walk(st.value)):
+                self.n += 1
+                tmp = f"_vp_arg{self.n}"
+                out.append(ast.copy_location(ast.Assign(targets=[ast.Name(id=tmp, ctx=ast.Store())], value=st.value.args[0]), st))
+                st.value.args = [ast.Name(id=tmp, ctx=ast.Load())]
+            out.append(st)
+        return out
+
+    def generic_visit(self, node):
+        super().generic_visit(node)
+        if isinstance(node, ast.FunctionDef):
+            node.body = self._block(node.body)
+        return node
+
+
+def T_ternary(src):
+    return _apply(src, _TernarySplit)
+
+
+def T_elseafterexit(src):
+    return _apply(src, _ElseAfterExit)
+
+
+def T_argtemp(src):
+    return _apply(src, _ArgTemp)
+
+
+ALL = {"log-lines": T_log, "unused-local": T_nooplocal, "add-docstrings": T_docstring, "mirror-comparisons": T_mirror, "pass": T_pass, "const-swap": T_const, "if-not": T_ifnot, "return-temp": T_rettmp, "kwargs-order": T_kwargs, "rename-locals": T_rename, "augassign-expanded": T_augexpand, "elif-as-nested-if": T_elifnest, "in-tuple-vs-list": T_tuplelist, "ternary-as-if": T_ternary, "else-after-exit": T_elseafterexit, "argument-temp": T_argtemp}
